@@ -15,6 +15,17 @@ CHECKS = {
             "the right level for a pure string function with an exact reference.",
             "Trusted: CPython re (fullmatch/DOTALL) as the definition's executor; the reading of runs of >= 4 dots is "
             "left open (any reading accepted). Absence beyond the bound is not established."),
+    'C05': ('6.5',
+            "exhaustive enumeration of small (got, want) pairs x all 32 flag settings against a reference normaliser "
+            "written from the statement + metamorphic laws (strict exactness, monotonicity, whitespace-only leniency); "
+            "Hypothesis token sequences beyond the bound; end-to-end doctest runs",
+            "All pairs over two 7-letter alphabets up to length 3 (quick) / 4 (thorough) under all 32 settings of the five "
+            "flags, compared with a reference and with three laws that involve no model; Hypothesis token sequences "
+            "(ANSI codes, <BLANKLINE>, prefixed literals) beyond the bound; sampled end-to-end doctests. Bounded-exhaustive "
+            "exploration of a pure function.",
+            "Trusted: the reference normaliser (vp/ref/normaliser.py, self-tested) and CPython re/str. Cases where the "
+            "statement admits several readings (classes a-e) are counted and not asserted; carriage returns are outside "
+            "the domain."),
 }
 
 NOT_BUILT_REASON = 'check under construction in this round: not claimed until it has been built and run against its mutants'
